@@ -349,6 +349,9 @@ func (ex *Exec) evalIdent(name string, env *CEnv, want string) TV {
 	if v, ok := env.vars[name]; ok {
 		// locals bound lazily to cells are loaded from the state in use
 		if lz, ok := v.V.(*lazyCell); ok {
+			if ex.usedLocals != nil {
+				ex.usedLocals[shortKey(ex.curKey)+": "+name] = true
+			}
 			return TV{V: ex.load(env.state(), lz.p, v.T), T: v.T}
 		}
 		return v
